@@ -610,6 +610,11 @@ func bessel_i_imp(v, x float64) float64 {
   if v > 0 && x / v < 0.25 {
     return bessel_i_small_z_series(v, x)
   }
+  if x >= MaxLogFloat64 - 1.0 && (v > 0.0 || math.Floor(v) == v) {
+    // exp(-x) is subnormal or 0 here and the Wronskian with K_v(x) in
+    // bessel_ik breaks down; the log-domain evaluation does not underflow
+    return math.Exp(bessel_i_log(v, x))
+  }
   I, _ := bessel_ik(v, x, need_i)
   return I
 }
